@@ -14,6 +14,10 @@ THEOREMS = [
     "BSVerif.Props.C13.detect_utf32be_nobom",
     "BSVerif.Props.C13.readChunk_progress",
     "BSVerif.Props.C13.readAll_terminates",
+    "BSVerif.Props.C13.writer_emits_standard_encoding",
+    "BSVerif.Props.C13.writer_bom",
+    "BSVerif.Props.C13.rejected_write_emits_nothing",
+    "BSVerif.Props.C13.writer_session",
 ]
 RULE = ("texts with code points of every UTF-8/UTF-16 length placed at every offset around the chunk boundary x 5 encodings x "
         "BOM on/off x 3 target widths x N in {32,36,64,256} x truncation points x both policies, through CEncodedStreamReader; "
